@@ -639,6 +639,17 @@ func (ev *evalCtx) call(e *SExpr) Val {
 			return ev.fail("fresh(x)")
 		}
 		return ghost("(< "+argv(0).T+" "+smtInt(int64(-ev.fr.entryAlloc))+")", "Bool")
+	case "neverclosed":
+		// neverclosed(ch): nobody ever closes this channel (nil counts)
+		if len(e.Args) != 1 {
+			return ev.fail("neverclosed(ch)")
+		}
+		return ghost("(or (= "+argv(0).T+" 0) (ch_nc "+argv(0).T+"))", "Bool")
+	case "closable":
+		if len(e.Args) != 1 {
+			return ev.fail("closable(ch)")
+		}
+		return ghost("(or (= "+argv(0).T+" 0) (not (ch_nc "+argv(0).T+")))", "Bool")
 	case "lastrecvok":
 		// ok of the most recent channel receive of this function (false: it found the channel closed)
 		if ev.fr.lastRecvOk == "" {
